@@ -20,7 +20,7 @@ type c14cCase struct {
 	Pad   int    `json:"pad"`
 }
 
-var c14cClasses = []string{"download", "padded-download", "padding-only-frames", "empty-data-frames", "timed-out-request-data-in-flight", "reset-by-server-mid-body", "two-streams-interleaved", "data-only-for-abandoned-requests"}
+var c14cClasses = []string{"long-download-after-covering-goaway", "download", "padded-download", "padding-only-frames", "empty-data-frames", "timed-out-request-data-in-flight", "reset-by-server-mid-body", "two-streams-interleaved", "data-only-for-abandoned-requests"}
 
 // csender is the scripted server's send-side ledger towards the client.
 type csender struct {
@@ -149,6 +149,37 @@ func c14cExec(cs c14cCase) (*fw.Violation, *harness.Client, int64) {
 			if !call.Done || call.Err != nil || len(call.Body) != 40*len(chunk) {
 				return mk("download-corrupted", fmt.Sprintf("download of %d bytes: done=%v err=%v got %d bytes", 40*len(chunk), call.Done, call.Err, len(call.Body))), h, s.sent
 			}
+		case "long-download-after-covering-goaway":
+			// graceful shutdown: GOAWAY(NO_ERROR) covers the request in flight, whose (long) response the server
+			// then delivers: connection and stream credit must keep coming until it is done
+			call, id, e := open()
+			if e != "" {
+				return mk("harness", e), h, 0
+			}
+			for i := 0; i < 3; i++ {
+				if r, d := s.send(id, chunk, false, cs.Pad); r != "" {
+					return mk(r, d), h, s.sent
+				}
+			}
+			h.Send(s.srv.Idx, peer.GoAway(id, 0, ""))
+			n := 3
+			for s.sent < target {
+				if r, d := s.send(id, chunk, false, cs.Pad); r != "" {
+					return mk(r+" after-goaway", d), h, s.sent
+				}
+				n++
+			}
+			if r, d := s.send(id, chunk, true, cs.Pad); r != "" {
+				return mk(r+" after-goaway", d), h, s.sent
+			}
+			n++
+			if !call.Done || call.Err != nil || len(call.Body) != n*len(chunk) {
+				return mk("download-corrupted", fmt.Sprintf("download of %d bytes promised by GOAWAY(last-stream-id=%d): done=%v err=%v got %d bytes", n*len(chunk), id, call.Done, call.Err, len(call.Body))), h, s.sent
+			}
+			if len(h.S.Panics) > 0 {
+				return mk("process-would-crash", strings.Join(h.S.Panics, "; ")), h, s.sent
+			}
+			return nil, h, s.sent
 		case "padding-only-frames":
 			call, id, e := open()
 			if e != "" {
